@@ -199,26 +199,34 @@ def run(db, tier):
     why = "the numbering loop over `items` was not found"
     if loops:
         why = ""
+        NONE = "is_none(each(items).number)"
+        NEG = "(each(items).number.Some.0 < 0)"
         for conds, events, fl in loops[0][2]:
             cd = dict((k, v) for k, v, _ in conds)
-            arm = [v for k, v in cd.items() if k.startswith("match each(items).number ")]
+            if not any(k.startswith("match each(items) ") and v == "Script" for k, v in cd.items()):
+                continue
             emits = [e for e in events if e[0] == "emit"]
             sets = dict((e[1], e[2]) for e in events if e[0] == "set")
-            neg = [v for k, v in cd.items() if k == "(each(items).number.Some.0 < 0)"]
-            if arm == ["None"] and emits:
+            is_none, neg = cd.get(NONE), cd.get(NEG)
+            if emits and is_none is True:
                 lf = SY.linear_form(emits[0][1])
                 upd = SY.linear_form(sets["next_auto_number"]) if "next_auto_number" in sets else None
-                ok_auto = lf == {"next_auto_number": 1} and upd == {"next_auto_number": 1, 1: 1}
-                if not ok_auto:
+                good = lf == {"next_auto_number": 1} and upd == {"next_auto_number": 1, 1: 1}
+                ok_auto = good if not why else False
+                if not good:
                     why += "automatic index is %s and the counter becomes %s; " % (SY.render(emits[0][1]), SY.render(sets.get("next_auto_number", ("lit", "unchanged"))))
-            elif arm and arm[0].startswith("Some") and emits:
-                good = SY.render(emits[0][1]) == "each(items).number.Some.0" and neg == [False]
-                ok_expl = ok_expl or good
+            elif emits and is_none is False:
+                good = SY.render(emits[0][1]) == "each(items).number.Some.0" and neg is False
+                ok_expl = good if not why else False
                 if not good:
                     why += "explicit index %s is taken under %s; " % (SY.render(emits[0][1]), sorted(cd.items()))
-                    ok_expl = False
-            elif arm and arm[0].startswith("Some") and not emits and neg == [True]:
+            elif emits:
+                why += "an index is produced under %s; " % sorted(cd.items())
+            elif not emits and is_none is False and neg is True:
                 ok_neg = any(e[0] == "effect" and e[1] == "set" for e in events)
+        if why:
+            ok_auto = ok_auto and "automatic" not in why
+            ok_expl = ok_expl and "explicit" not in why and "an index is produced" not in why
     rep.check(ok_auto, "R-TIMELINE-INDEX", "auto|counter value, then +1", tf.loc, "automatic index = counter; counter += 1", why or "no automatic-index path found")
     rep.check(ok_expl, "R-TIMELINE-INDEX", "explicit|number itself, non-negative only", tf.loc, "explicit index = the number, only when it is >= 0", why or "no explicit-index path found")
     rep.check(ok_neg, "R-TIMELINE-INDEX", "negative|error, no index", tf.loc, "a negative number is an error and produces no index", why or "the negative-number path does not set the error flag")
